@@ -1,6 +1,105 @@
-From MV Require Import C09.Model C09.Proofs.
+(* C09 — property theorems only.  Each is closed by [exact] of a lemma proved in
+   C09/Proofs*.v and followed by Print Assumptions.  Models: C09/Model.v.
+
+   avl_inv t = search_tree t (every key of the left subtree below, every key of
+   the right subtree above, recursively) /\ bal t (at every node the recorded
+   balance equals height right - height left and lies in [-1,1]).
+   The reference map is Spec.v: [map_step_reject] (tree, table: a duplicate key
+   is rejected) and [map_step_trie] (trie: insertion overwrites). *)
+From MV Require Import C09.Proofs.
 Local Open Scope Z_scope.
 
-Theorem trie_signed_index_oob : forall c, 128 <= c <= 255 -> index_in_range (byte_index_unrepaired c) = false.
-Proof. exact trie_signed_index_oob_l. Qed.
-Print Assumptions trie_signed_index_oob.
+(* Insertion (descent, retracing, single/double rotations with the code's
+   balance-factor updates) preserves search-tree order, exact balance factors
+   and |balance| <= 1 at every node, for every tree, key and value. *)
+Theorem avl_inv_insert : forall k v t, avl_inv t -> avl_inv (fst (avl_insert k v t)).
+Proof. exact avl_insert_inv. Qed.
+Print Assumptions avl_inv_insert.
+
+(* Removal (swap with predecessor, else successor, down to a leaf; unlink;
+   retrace with rebalance and early stop) preserves the same invariant. *)
+Theorem avl_inv_remove : forall k t, avl_inv t -> avl_inv (fst (avl_remove k t)).
+Proof. exact avl_remove_inv. Qed.
+Print Assumptions avl_inv_remove.
+
+(* ... hence after every history from every valid tree. *)
+Theorem avl_inv_history : forall ops t, avl_inv t -> avl_inv (fst (run avl_step t ops)).
+Proof. exact avl_inv_run. Qed.
+Print Assumptions avl_inv_history.
+
+(* After every history of insert / find / remove the tree answers exactly like
+   the reference map: same accepted/rejected insertions, same lookups, same
+   found/not-found removals, and the final contents coincide key by key. *)
+Theorem avl_refines_map : forall ops,
+  snd (run avl_step Leaf ops) = snd (run (map_step_reject Z.eq_dec) empty_map ops) /\
+  avl_inv (fst (run avl_step Leaf ops)) /\
+  forall y, avl_find y (fst (run avl_step Leaf ops)) = fst (run (map_step_reject Z.eq_dec) empty_map ops) y.
+Proof. exact avl_refines. Qed.
+Print Assumptions avl_refines_map.
+
+(* A duplicate key is rejected and the tree is left exactly as it was. *)
+Theorem avl_duplicate_rejected : forall k v t w, avl_find k t = Some w -> avl_insert k v t = (t, false).
+Proof. exact avl_insert_dup. Qed.
+Print Assumptions avl_duplicate_rejected.
+
+(* A new key is accepted, becomes visible with its value, and no other lookup changes. *)
+Theorem avl_insert_exact : forall k v t, avl_inv t -> avl_find k t = None ->
+  snd (avl_insert k v t) = true /\
+  forall y, avl_find y (fst (avl_insert k v t)) = if y =? k then Some v else avl_find y t.
+Proof. exact avl_insert_new. Qed.
+Print Assumptions avl_insert_exact.
+
+(* A removal removes exactly that one association (and reports whether it existed). *)
+Theorem avl_remove_exact : forall k t, avl_inv t ->
+  snd (avl_remove k t) = (if avl_find k t then true else false) /\
+  forall y, avl_find y (fst (avl_remove k t)) = if y =? k then None else avl_find y t.
+Proof. exact avl_remove_find. Qed.
+Print Assumptions avl_remove_exact.
+
+(* The verdict computed by the model driver decides the invariant. *)
+Theorem avl_check_sound : forall t, avl_okb t = true -> avl_inv t.
+Proof. exact avl_okb_sound. Qed.
+Print Assumptions avl_check_sound.
+
+(* Hash table: for EVERY hash function (all keys may collide) and every table
+   size, every history is answered like the reference map. *)
+Theorem ht_refines_map : forall (hash : Z -> Z) table_size ops,
+  snd (run (ht_step hash) (ht_init table_size) ops) = snd (run (map_step_reject Z.eq_dec) empty_map ops) /\
+  forall y, ht_find hash (fst (run (ht_step hash) (ht_init table_size) ops)) y =
+            fst (run (map_step_reject Z.eq_dec) empty_map ops) y.
+Proof. exact ht_refines. Qed.
+Print Assumptions ht_refines_map.
+
+Theorem ht_duplicate_rejected : forall hash t k v w, ht_find hash t k = Some w -> ht_put hash t k v = (t, false).
+Proof. exact ht_put_dup. Qed.
+Print Assumptions ht_duplicate_rejected.
+
+(* Trie (with fixes/C09-trie-unsigned-index.patch): over byte strings with bytes
+   in 1..255 — the empty key, prefixes of other keys and bytes >= 0x80 included —
+   every history is answered like a map with overwrite; the boolean returned by
+   a removal is observed as "true" on both sides ([obs]) because the API leaves it
+   open for absent keys (see trie_remove_present_true for stored keys). *)
+Theorem trie_refines_map : forall ops, Forall valid_op ops ->
+  map obs (snd (run trie_step trie_empty ops)) = snd (run map_step_trie empty_map ops) /\
+  forall key, valid_key key ->
+    trie_lookup (fst (run trie_step trie_empty ops)) key = fst (run map_step_trie empty_map ops) key.
+Proof. exact trie_refines. Qed.
+Print Assumptions trie_refines_map.
+
+Theorem trie_remove_present_true : forall t k v, trie_lookup t k = Some v -> snd (trie_step t (Rem k)) = RRem true.
+Proof. exact trie_rem_present_true. Qed.
+Print Assumptions trie_remove_present_true.
+
+(* Any non-NUL byte: the repaired index stays inside children[256] and never
+   touches the slot of the empty key ... *)
+Theorem trie_high_bytes : forall c, 1 <= c <= 255 ->
+  index_in_range (byte_index c) = true /\ byte_index c <> 0.
+Proof. exact byte_index_in_range. Qed.
+Print Assumptions trie_high_bytes.
+
+(* ... whereas the index of the unchanged code ((int) of a signed char) leaves
+   the array for every byte >= 0x80 (the defect repaired by the patch). *)
+Theorem trie_unrepaired_index_out_of_bounds : forall c, 128 <= c <= 255 ->
+  index_in_range (byte_index_unrepaired c) = false.
+Proof. exact byte_index_unrepaired_oob. Qed.
+Print Assumptions trie_unrepaired_index_out_of_bounds.
